@@ -345,9 +345,19 @@ def run_helpers(P, R, tier, log_dir):
         rc = ex.deref(field(plan, "rhs_conv"), o.state).variant
         lt = "f64" if (fl[1] == F or lc == "ToFloat") else "i64"
         rt = "f64" if (fr[1] == F or rc == "ToFloat") else "i64"
-        # literal divisor constraints of this path
+        # literal divisor constraints of this path (shared sub-terms expanded so that no constraint hides behind a name)
         lit_terms = [m.lit.term, m.neg_lit.term]
-        cons = [c for c in o.pc if any(t in c for t in lit_terms)]
+        rev = {name: term for (_, term), name in ex.enc.shared.items()}
+
+        def expand(c):
+            for _ in range(50):
+                names = set(re.findall(r"t![0-9]+", c))
+                if not names:
+                    break
+                for nme in names:
+                    c = re.sub(re.escape(nme) + r"(?![0-9])", rev.get(nme, nme), c)
+            return c
+        cons = [c for c in (expand(x) for x in o.pc) if any(t in c for t in lit_terms)]
         fk = facts.get(m.rkind.tag().term)
         lit_kind = None
         if fk and fk[0] == "eq" and fk[1] == m.ix("IrExprKind", "Int"):
